@@ -106,7 +106,7 @@ def rnd_v6(rng):
 
 def answer_spec(rng, qtype, owner_hint, tier):
     """rsp spec for a successful answer to an A (1) / AAAA (28) question"""
-    shape = rng.choice(["plain", "plain", "plain", "cname", "cname2", "mixed", "otherfam", "dups", "many", "junk", "cnameonly"])
+    shape = rng.choice(["plain", "plain", "plain", "cname", "cname2", "mixed", "otherfam", "dups", "many", "junk", "cnameonly", "foreign"])
     rrs = []
     owner = None
     ttl = lambda: rng.choice(TTLS)
@@ -122,7 +122,7 @@ def answer_spec(rng, qtype, owner_hint, tier):
         if t == 1:
             return "A:%s:%d" % (rnd_v4(rng), ttl())
         return "AAAA:%s:%d" % (rnd_v6(rng), ttl())
-    n = {"plain": rng.choice([1, 1, 2, 3]), "cname": rng.choice([1, 2]), "cname2": 1, "mixed": rng.choice([2, 4]),
+    n = {"foreign": rng.choice([1, 2, 3]), "plain": rng.choice([1, 1, 2, 3]), "cname": rng.choice([1, 2]), "cname2": 1, "mixed": rng.choice([2, 4]),
          "otherfam": rng.choice([1, 2]), "dups": 2, "many": rng.choice([12, 30]), "junk": rng.choice([1, 2]), "cnameonly": 0}[shape]
     last = None
     for i in range(n):
@@ -137,6 +137,8 @@ def answer_spec(rng, qtype, owner_hint, tier):
         last = rr
         if owner:
             rr += "@" + owner
+        if shape == "foreign" and (i == 0 or rng.random() < 0.5):
+            rr += "@@" + rng.choice(["CH", "HS", "NONE", "CH"])     # same type, foreign class: must be ignored
         rrs.append(rr)
     if shape == "junk":
         for _ in range(rng.choice([1, 2])):
@@ -313,10 +315,119 @@ def fixed_cases(cat):
     ]
 
 
+def plain_answer(rng, qtype, k=None):
+    k = k or rng.choice([1, 2, 3])
+    if rng.random() < 0.3:
+        t1 = "c.cache.test"
+        rrs = ["CNAME:%s:%d" % (t1, rng.choice([5, 30, 300, 4000]))]
+        own = "@" + t1
+    else:
+        rrs, own = [], ""
+    for _ in range(k):
+        ttl = rng.choice([1, 5, 30, 60, 300, 4000, 86400])
+        rrs.append(("A:%s:%d" % (rnd_v4(rng), ttl) if qtype == 1 else "AAAA:%s:%d" % (rnd_v6(rng), ttl)) + own)
+    return rrs
+
+
+def min_ttl(rrs):
+    out = []
+    for rr in rrs:
+        body = rr.split("@")[0]
+        out.append(int(body.rsplit(":", 1)[1]))
+    return min(out)
+
+
+def gen_cache_case(rng, tier):
+    """query cache on: repeated lookups of one name, the clock advanced in between; the generator
+    tracks which sub-queries the library will answer from its cache (no transmission)"""
+    q = rng.choice([3600, 3600, 60, 10, 2])
+    cfg = "servers=1 qcachettl=%d flags=noedns tries=1 timeout=1000 lookups=b domains=- ndots=1 seed=%d" % (q, rng.randrange(1, 1000))
+    name = rng.choice(["cache.example.com", "c2.example.org", "single"])
+    now = 1000000
+    cache = {}            # qtype -> expiry second
+    ops = []
+    for tok in range(1, rng.choice([2, 3, 4, 5]) + 1):
+        family = rng.choice([0, 0, 4, 6])
+        if rng.random() < 0.7:
+            ops.append("gai %d %s %d 0x%x %s" % (tok, name, family, rng.choice([0x80, 0x80, 0x81, 0]), rng.choice(["80", "443", "-"])))
+        else:
+            ops.append("ghbn %d %s %d" % (tok, name, family))
+        types = [1, 28] if family == 0 else ([1] if family == 4 else [28])
+        miss = [t for t in types if not (t in cache and cache[t] > now // 1000)]
+        # answers for the transmitted sub-queries (A was sent before AAAA)
+        specs = {}
+        for t in miss:
+            r = rng.random()
+            if r < 0.75:
+                rrs = plain_answer(rng, t)
+                specs[t] = ("an=" + "+".join(rrs), min(q, min_ttl(rrs)))
+            elif r < 0.9:
+                specs[t] = ("rcode=NOERROR", q)          # NODATA is cached for the maximum
+            else:
+                specs[t] = ("rcode=NXDOMAIN", 0)
+        order = list(miss)
+        if rng.random() < 0.4:
+            order.reverse()
+        for t in order:
+            ref = "xl" if (len(miss) == 1 or t == miss[-1]) else "xl-1"
+            ops.append("rsp %s %s" % (ref, specs[t][0]))
+        if miss:
+            ops.append("run")
+            for t in miss:
+                if specs[t][1] > 0:
+                    cache[t] = now // 1000 + specs[t][1]
+        adv = rng.choice([0, 400, 999, 1000, 1500, 4000, 9000, 59000, 61000, 3599000, 3601000])
+        if adv:
+            ops.append("adv %d" % adv)
+            now += adv
+    return cfg + "|" + ";".join(ops)
+
+
+def gen_overlap_case(rng, tier):
+    """several requests in flight at the same time, answered in a shuffled order"""
+    cfg = "servers=1 qcachettl=0 flags=noedns tries=1 timeout=1000 lookups=b domains=- ndots=1 seed=%d" % rng.randrange(1, 1000)
+    names = rng.sample(["one.example.com", "two.example.com", "three.example.org", "four.test", "five"], rng.choice([2, 2, 3]))
+    ops = []
+    txs = []          # (x index, rsp spec)
+    x = 0
+    for i, nm in enumerate(names):
+        if rng.random() < 0.25:
+            a = rnd_v4(rng) if rng.random() < 0.5 else rnd_v6(rng)
+            ops.append("ghba %d %s" % (i + 1, a))
+            txs.append((x, rng.choice(["an=PTR:%s.rev.example:60" % nm.split(".")[0], "rcode=NXDOMAIN", "an=PTR:a.example+PTR:b.example"])))
+            x += 1
+            continue
+        family = rng.choice([0, 0, 4, 6])
+        api = rng.choice(["gai", "gai", "ghbn"])
+        ops.append("gai %d %s %d 0x80 %d" % (i + 1, nm, family, rng.choice([80, 443, 25])) if api == "gai" else "ghbn %d %s %d" % (i + 1, nm, family))
+        for t in ([1, 28] if family == 0 else ([1] if family == 4 else [28])):
+            good = rng.random() < 0.75
+            txs.append((x, answer_spec(rng, t, nm, tier) if good else rng.choice(["rcode=NXDOMAIN", "rcode=NOERROR", "rcode=SERVFAIL"])))
+            x += 1
+    rng.shuffle(txs)
+    for (j, spec) in txs:
+        if rng.random() < 0.1:
+            continue                       # left to time out
+        ops.append("rsp x%d %s" % (j, spec))
+        if rng.random() < 0.4:
+            ops.append("run")
+    ops += ["run", "adv 1500", "proct", "rspall rcode=NXDOMAIN", "run"]
+    return cfg + "|" + ";".join(ops)
+
+
 def gen(rng, tier, n):
     cat = catalogue()
     fixed = fixed_cases(cat)
-    return fixed + [gen_case(rng, tier, cat) for _ in range(max(0, n - len(fixed)))]
+    out = list(fixed)
+    for _ in range(max(0, n - len(fixed))):
+        r = rng.random()
+        if r < 0.12:
+            out.append(gen_cache_case(rng, tier))
+        elif r < 0.24:
+            out.append(gen_overlap_case(rng, tier))
+        else:
+            out.append(gen_case(rng, tier, cat))
+    return out
 
 
 if __name__ == "__main__":
